@@ -107,6 +107,22 @@ impl Tok {
                         *n = n.wrapping_add(param)
                     }
                 }
+                7 => {
+                    if let Tok::L(_, l) = self {
+                        if let Some(Tok::N(n)) = l.last().cloned() {
+                            l.push(Tok::N(n.wrapping_add(1)))
+                        }
+                    }
+                }
+                8 => {
+                    if let Tok::L(_, l) = self {
+                        if l.len() >= 2 {
+                            if let Tok::N(x) = l[0] {
+                                l[1] = Tok::N(x.wrapping_add(1 << 32))
+                            }
+                        }
+                    }
+                }
                 _ => *self = Tok::L(0, vec![]),
             }
             return;
